@@ -403,12 +403,8 @@ class TS:
                     else:
                         ww = max(addr.size(), waddr.size())
                         same = _ext(addr, ww, False) == _ext(waddr, ww, False)
-                    m = self.mems[mi]
-                    if waddr is None:
-                        inb = z3.BoolVal(True)
-                    else:
-                        inb = z3.ULT(_ext(waddr, waddr.size() + 1, False), m.depth)
-                    val = z3.If(z3.And(same, inb), (data & en) | (val & ~en), val)
+                    # as in amaranth.sim: transparency compares addresses only (also for out-of-range rows)
+                    val = z3.If(same, (data & en) | (val & ~en), val)
             nx[("rp", i)] = z3.If(f.net(rc.en) == 1, val, st[("rp", i)])
         return nx
 
